@@ -17,6 +17,7 @@ from .isa import (Enc, any_of, mem_u_read, mem_u_write, mem_a_read, mem_a_write,
                   _data_abort)
 
 FAM = 'ls_hd'
+FAM_AUX = 'ls_hd_aux'  # auxiliary rows (no repository class of that name): run with expect_class = false
 
 
 def r4(x):
@@ -264,6 +265,10 @@ def is_hint_puw(f):
     return AND(f['Rt'] == 15, f['P'] == 1, f['U'] == 0, f['W'] == 0)
 
 
+def is_undef_pw(f):
+    return AND(f['P'] == 0, f['W'] == 0)
+
+
 def is_unpriv_puw(f):
     return AND(f['P'] == 1, f['U'] == 1, f['W'] == 0)
 
@@ -273,10 +278,13 @@ for pre, kind, s, sz, n_imm12, n_imm8, n_reg, n_unpriv in T32_X:
         guard=lambda f: AND(f['Rn'] != 15, f['Rt'] != 15), unpred=lambda f, S: f['Rt'] == 13,
         sem=sem_offset(kind, imm12))
     Enc(n_imm8, 'T32', '11111 00 %d 0 %s 1 Rn Rt 1 P U W imm8' % (s, sz), family=FAM,
-        guard=lambda f: AND(f['Rn'] != 15, NOT(is_hint_puw(f)), NOT(is_unpriv_puw(f))),
-        undefined=lambda f, S: AND(f['P'] == 0, f['W'] == 0),
+        guard=lambda f: AND(f['Rn'] != 15, NOT(is_hint_puw(f)), NOT(is_unpriv_puw(f)), NOT(is_undef_pw(f))),
         unpred=lambda f, S: OR(badreg(f['Rt']), AND(f['W'] == 1, f['Rn'] == f['Rt'])),
         sem=sem_puw(kind, imm8))
+    # "if P == '0' && W == '0' then UNDEFINED": the repository's decoder treats this region as unallocated (returns
+    # no class), which is the same behaviour; it is claimed by an auxiliary row (run with expect_class = false)
+    Enc(n_imm8 + '_undef', 'T32', '11111 00 %d 0 %s 1 Rn Rt 1 0 U 0 imm8' % (s, sz), family=FAM_AUX,
+        guard=lambda f: f['Rn'] != 15, undefined=lambda f, S: True, sem=lambda S, f: None)
     Enc(pre + 'LiteralT1', 'T32', '11111 00 %d U %s 1 1111 Rt imm12' % (s, sz), family=FAM,
         guard=lambda f: f['Rt'] != 15, unpred=lambda f, S: f['Rt'] == 13,
         sem=sem_literal(kind, lambda f: zx(f['imm12'], 32)))
@@ -289,9 +297,10 @@ for pre, kind, s, sz, n_imm12, n_imm8, n_reg, n_unpriv in T32_X:
 Enc('StrhImmediateThumbT2', 'T32', '11111 00 0 1 01 0 Rn Rt imm12', family=FAM,
     undefined=lambda f, S: f['Rn'] == 15, unpred=lambda f, S: badreg(f['Rt']), sem=sem_offset('strh', imm12))
 Enc('StrhImmediateThumbT3', 'T32', '11111 00 0 0 01 0 Rn Rt 1 P U W imm8', family=FAM,
-    guard=lambda f: NOT(is_unpriv_puw(f)),
-    undefined=lambda f, S: OR(f['Rn'] == 15, AND(f['P'] == 0, f['W'] == 0)),
+    guard=lambda f: AND(NOT(is_unpriv_puw(f)), NOT(is_undef_pw(f))), undefined=lambda f, S: f['Rn'] == 15,
     unpred=lambda f, S: OR(badreg(f['Rt']), AND(f['W'] == 1, f['Rn'] == f['Rt'])), sem=sem_puw('strh', imm8))
+Enc('StrhImmediateThumbT3_undef', 'T32', '11111 00 0 0 01 0 Rn Rt 1 0 U 0 imm8', family=FAM_AUX,
+    undefined=lambda f, S: True, sem=lambda S, f: None)
 Enc('StrhRegisterT2', 'T32', '11111 00 0 0 01 0 Rn Rt 000000 imm2 Rm', family=FAM,
     undefined=lambda f, S: f['Rn'] == 15, unpred=lambda f, S: OR(badreg(f['Rt']), badreg(f['Rm'])),
     sem=sem_offset('strh', rm_lsl))
